@@ -64,10 +64,12 @@ def _unpad_openssh(data):
     # At the moment, this is only used for unpadding private keys on disk. This
     # really ought to be made constant time (possibly by upstreaming this logic
     # into pyca/cryptography).
+    if not data:
+        raise SSHException("Invalid key")
     padding_length = data[-1]
     if 0x20 <= padding_length < 0x7F:
         return data  # no padding, last byte part comment (printable ascii)
-    if padding_length > 15:
+    if padding_length > 15 or padding_length > len(data):
         raise SSHException("Invalid key")
     for i in range(padding_length):
         if data[i - padding_length] != i + 1:
